@@ -92,19 +92,22 @@ def C12_quiescent_statement (c : Cfg) : Prop :=
       registered s p ∧ subscribed s x (s.obj p).addr ∧ (s.obj p).learned x = s.value x
 
 /-- **C12_quiescent_partial.** The statement holds for every history in which the application
-    changes values on the loop thread only (`NoWorker`: no `AppSetWorker`; what is missing for the
-    full statement is exactly the worker-thread hand-off, see `C12_quiescent_fails`). Proved from
+    changes values on the loop thread only (`NoWorker`: no `AppSetWorker`; for worker-thread changes
+    the full statement is false, see `C12_quiescent_fails`) and no characteristic has a setter
+    callback (`hcb`; with callbacks the statement is expected to hold but is not proved — the
+    recipient / immediate / no-orphan theorems above do cover callbacks). Proved from
     the invariant
     `since p x → queue p x ⊆ {value x} ∧ (learned p x = value x ∨ (queue p x = value x ∧ (timer p ∨ soon p)))`
     (`InvL`), i.e. DESIGN's `owed(c,x) → queue c x = some (value x) ∧ (timer c ∨ soon c)` with
     `owed c x := since c x ∧ learned c x ≠ value x`. Needs the C12 repair (`fix12`). -/
 theorem C12_quiescent_partial (c : Cfg) (h12 : c.fix12 = true) (h13 : c.fix13 = true)
+    (hcb : ∀ x, c.cb x = Callback.none)
     (tr : List Ev) (hr : ReuseOK c (init c) tr) (hw : NoWorker tr) :
     let s := (run c (init c) tr).1
     Quiescent s → ∀ p x, (s.obj p).since x = true → c.nul x = false →
       registered s p ∧ subscribed s x (s.obj p).addr ∧ (s.obj p).learned x = s.value x := by
   intro s hq p x hs hn
-  have hL : InvL c s := invL_run c h12 h13 tr hr hw
+  have hL : InvL c s := invL_run c h12 h13 hcb tr hr hw
   have hA : InvA s := invA_run c h13 tr _ (invA_init c)
   obtain ⟨g1, g2, g3⟩ := hL p x hs
   obtain ⟨v, v1, _, v3⟩ := g3 hn
@@ -121,7 +124,8 @@ theorem C12_drain (c : Cfg) (s : St) : Quiescent (run c s (drainAll s)).1 :=
 /-- **C12_quiescent_after_drain_partial** ("all traces, then drain" form). After any history
     without worker-thread changes respecting the reuse hypothesis, followed by the drain, every
     connection subscribed to `x` since its last change has learned the current value of `x`. -/
-theorem C12_quiescent_after_drain_partial (c : Cfg) (h12 : c.fix12 = true) (h13 : c.fix13 = true) (tr : List Ev)
+theorem C12_quiescent_after_drain_partial (c : Cfg) (h12 : c.fix12 = true) (h13 : c.fix13 = true)
+    (hcb : ∀ x, c.cb x = Callback.none) (tr : List Ev)
     (hr : ReuseOK c (init c) tr) (hw : NoWorker tr) :
     let s := (run c (init c) tr).1
     let s' := (run c s (drainAll s)).1
@@ -138,7 +142,7 @@ theorem C12_quiescent_after_drain_partial (c : Cfg) (h12 : c.fix12 = true) (h13 
       obtain ⟨q, _, hq⟩ := h
       rcases drainOf_events s q e hq with rfl | rfl <;> simp [notWorker]
   have e : (run c (init c) (tr ++ drainAll s)).1 = s' := run_append c _ tr _
-  have := C12_quiescent_partial c h12 h13 (tr ++ drainAll s) hr' hw'
+  have := C12_quiescent_partial c h12 h13 hcb (tr ++ drainAll s) hr' hw'
   simp only [e] at this
   exact this (C12_drain c s) p x hs hn
 
@@ -246,6 +250,27 @@ theorem C12_quiescent_fails : ¬ C12_quiescent_statement exCfg12 := by
   have e1 := this.2.2
   rw [w.2.2.2.2.1, w.2.2.2.2.2] at e1
   cases e1
+
+/-! ### setter callbacks inside `client_update_value` -/
+
+def cbCfg : Cfg := { exCfg12 with cb := fun x => if x = 0 then Callback.echo else if x = 1 then Callback.setTo 7 else Callback.none }
+
+/-- A (writer) and B subscribed to 0 and 1. An echoing callback (`char.set_value(value)`) produces no
+    second notification: A, the originator, gets nothing, B gets the value once. A clamping callback
+    (`char.set_value(7)` on a write of 50) is a change A did not make: A gets 7 too. -/
+theorem C12_callback_behaviour :
+    (run cbCfg (init cbCfg)
+      [Ev.connect 0, Ev.verify 0, Ev.connect 1, Ev.verify 1,
+       Ev.data 0 (Req.put 0 (some true) none false), Ev.data 1 (Req.put 0 (some true) none false),
+       Ev.data 0 (Req.put 0 none (some 5) false), Ev.timerFire 0, Ev.timerFire 1]).2
+      = [Out.resp 0 0 204 Body.none, Out.resp 1 0 204 Body.none, Out.resp 0 0 204 Body.none, Out.event 1 0 [(0, 5)]] ∧
+    (run cbCfg (init cbCfg)
+      [Ev.connect 0, Ev.verify 0, Ev.connect 1, Ev.verify 1,
+       Ev.data 0 (Req.put 1 (some true) none false), Ev.data 1 (Req.put 1 (some true) none false),
+       Ev.data 0 (Req.put 1 none (some 50) false), Ev.timerFire 0, Ev.timerFire 1]).2
+      = [Out.resp 0 0 204 Body.none, Out.resp 1 0 204 Body.none, Out.resp 0 0 204 Body.none,
+         Out.event 0 0 [(1, 7)], Out.event 1 0 [(1, 7)]] := by
+  decide
 
 /-! ### non-vacuity -/
 
